@@ -26,12 +26,21 @@ pub struct MockConn {
     written: Arc<Mutex<Vec<Vec<u8>>>>,
     timeout: Cell<bool>,
     peer: SocketAddr,
+    /// call counters and "the previous write was cut short by us" (see `write`)
+    nreads: u64,
+    nwrites: u64,
+    partial: bool,
 }
 
 impl Read for MockConn {
     fn read(&mut self, buf: &mut [u8]) -> std::io::Result<usize> {
         if buf.is_empty() {
             return Ok(0);
+        }
+        // every third call is interrupted by a signal (EINTR): nothing is consumed, the caller must retry
+        self.nreads += 1;
+        if self.nreads % 3 == 2 && matches!(self.events.front(), Some(Ev::Data(_))) {
+            return Err(std::io::Error::new(std::io::ErrorKind::Interrupted, "interrupted"));
         }
         loop {
             match self.events.pop_front() {
@@ -59,9 +68,22 @@ impl Read for MockConn {
 }
 
 impl Write for MockConn {
+    /// A socket may take only part of what it is offered, or be interrupted before taking anything: every other call
+    /// accepts only the first half (the continuation is appended to the same logical write), every fifth is EINTR.
     fn write(&mut self, buf: &[u8]) -> std::io::Result<usize> {
-        self.written.lock().unwrap().push(buf.to_vec());
-        Ok(buf.len())
+        self.nwrites += 1;
+        if self.nwrites % 5 == 4 && !buf.is_empty() {
+            return Err(std::io::Error::new(std::io::ErrorKind::Interrupted, "interrupted"));
+        }
+        let n = if self.nwrites % 2 == 1 && buf.len() >= 2 { buf.len() / 2 } else { buf.len() };
+        let mut w = self.written.lock().unwrap();
+        if self.partial && !w.is_empty() {
+            w.last_mut().unwrap().extend_from_slice(&buf[..n]);
+        } else {
+            w.push(buf[..n].to_vec());
+        }
+        self.partial = n < buf.len();
+        Ok(n)
     }
     fn flush(&mut self) -> std::io::Result<()> {
         Ok(())
@@ -218,7 +240,7 @@ pub fn exec(f: &[String]) -> Option<String> {
     let (ip, port) = f[4].split_once('|')?;
     let peer = SocketAddr::new(ip.parse().ok()?, port.parse().ok()?);
     let written = Arc::new(Mutex::new(Vec::new()));
-    let mock = MockConn { events, written: written.clone(), timeout: Cell::new(false), peer };
+    let mock = MockConn { events, written: written.clone(), timeout: Cell::new(false), peer, nreads: 0, nwrites: 0, partial: false };
     DISPATCH.with(|d| d.borrow_mut().clear());
     WS.with(|w| *w.borrow_mut() = None);
     let subapps = Arc::new(built);
